@@ -286,6 +286,13 @@ class Agent(dbus.service.Object):
         if invalid_crc:
             self._logger.warning('CRC invalid for block numbers: %s', invalid_crc)
             return
+        # Block data is always a byte string and every bundle has a payload
+        # block; anything else is what damage in transit left of a bundle
+        blocks = ctr.bundle.blocks
+        if (any(blk.getfieldval('btsd') is None for blk in blocks)
+                or not any(blk.getfieldval('type_code') == Bundle.BLOCK_TYPE_PAYLOAD for blk in blocks)):
+            self._logger.warning('Ignoring a bundle which is not well formed')
+            return
 
         ident = ctr.bundle_ident()
         if ctr.bundle.primary.source == self._config.node_id:
